@@ -409,7 +409,7 @@ class State:
                     items[k] = Maybe(z3.Bool(run.fresh_name("%s.has[%s]" % (prefix, k))), self.fresh(ft.t, "%s[%s]" % (prefix, k)))
                 else:
                     items[k] = self.fresh(ft, "%s[%s]" % (prefix, k))
-            return self.alloc(DictObj(items))
+            return self.alloc(DictObj(items, declared=set(t.fields)))
         if isinstance(t, TObj):
             return self.alloc(Obj(t.cls, {k: self.fresh(ft, "%s.%s" % (prefix, k)) for k, ft in t.fields.items()}))
         if isinstance(t, TOpt):
